@@ -12,6 +12,7 @@ func init() {
 			ruleBTArrMap(c)
 			rulePCArg(c, nil, 18, 3)
 			rulePCReg(c)
+			ruleArrBound(c)
 			c.Assume = append(c.Assume, "reflect.Int is 64 bits wide (linux/amd64); on a 32-bit target the Int -> Int64Codec row would be a finding")
 		})
 }
@@ -49,6 +50,7 @@ func init() {
 			ruleTSMult(c)
 			ruleEFU(c, "time.", 1)
 			rulePCArg(c, isTimePkgFunc(c.P), 5, 1)
+			ruleTSNoDur(c)
 			c.Note("not decided: DateCodec.Write divides Unix seconds by 86400 truncating toward zero (wrong before 1970 for non-midnight times); overflow of l*mult")
 		})
 
